@@ -241,7 +241,12 @@ func (c *s3Cache) Get(ctx context.Context, kind cache.EntryKind, hash string, _ 
 	logResponse(c.accessLogger, "DOWNLOAD", c.bucket, c.objectKey(hash, kind), nil)
 
 	if kind == cache.CAS && c.v2mode {
-		return casblob.ExtractLogicalSize(rc)
+		sizedRc, logicalSize, err := casblob.ExtractLogicalSize(rc)
+		if err != nil {
+			// Nobody will read (or close) the object now.
+			_ = rc.Close()
+		}
+		return sizedRc, logicalSize, err
 	}
 
 	return rc, info.Size, nil
